@@ -682,7 +682,7 @@ def quad_oracle(c, out):
 # --------------------------------------------------------------------------
 def run(ctx):
     ctx.build(FILES)
-    load_own_known(ctx)
+    pass  # known findings come from /verif/known_findings.json only
     ctx.cov['rule'] = (
         'three case families, all evaluated by the real API and by the Coq model (vm_compute): '
         'centroid_com on 1x1..9x9 integer/quarter-valued images (random, sparse, zero total, blobs, point-symmetric '
